@@ -12,6 +12,8 @@ Decided (AVN exact unless noted):
  EULER      rotation() returns the elementary matrices; rot_seq(axes, angles) is the ordered product for sequences of
             length 1-3 in lower/upper case and integer axes; DCM(rpy=), DCM(euler=), DCM(x=,y=,z=) reach them in the
             documented order;
+ OPTION     the degree / radian option arms (rpy2q, q2rpy and their aliases, rotation, axang2quat) equal the radian arm on
+            converted values;
  LOG        DCM.log is skew-symmetric with |log R|_F^2 == 2 t^2 on the generic arm;
  BAND       the shortcut ``isclose(trace, 3) -> zeros`` of DCM.log covers every rotation angle below acos(1 - tol/2); the
             property demands a correct logarithm for every angle "however small", so the band must be empty (exact test).
@@ -118,6 +120,31 @@ def pole_arm_in_domain(c, p):
     return True
 
 
+def unit_options(chk, prog):
+    """degree/radian option arms agree with the radian arm on converted input / output"""
+    from sa.lib import DEG2RAD_of
+    f1, f2 = prog.func(ORI + "::rpy2q"), prog.func(ORI + "::q2rpy")
+    it = Interp(prog, oracle=rng)
+    D = DEG2RAD_of(it, prog.module(ORI))
+    ad = sym_vec("adeg", 3)
+    chk.ob("OPTION.degrees", f1.ref, "rpy2q(A, in_deg=True) == rpy2q(A * pi/180)", lambda: eq(it.run(f1, [ad.copy()], {"in_deg": True}), it.run(f1, [ad * D]), "rpy2q(in_deg)"),
+           module=ORI, function="rpy2q", construct="in_deg option", line=f1.node.lineno)
+    q = sym_vec("oq", 4)
+    chk.ob("OPTION.degrees", f2.ref, "q2rpy(q, in_deg=True) == q2rpy(q) * 180/pi", lambda: eq(it.run(f2, [q], {"in_deg": True}), to_obj(it.run(f2, [q])) / D, "q2rpy(in_deg)"),
+           module=ORI, function="q2rpy", construct="in_deg option", line=f2.node.lineno)
+    for alias, target in (("cardan2q", "rpy2q"), ("q2cardan", "q2rpy")):
+        fa, ft = prog.func(ORI + "::" + alias), prog.func(ORI + "::" + target)
+        arg = ad if alias == "cardan2q" else q
+        chk.ob("OPTION.degrees", fa.ref, "%s forwards in_deg to %s" % (alias, target),
+               lambda fa=fa, ft=ft, arg=arg: eq(it.run(fa, [arg.copy()], {"in_deg": True}), it.run(ft, [arg.copy()], {"in_deg": True}), alias), module=ORI, function=alias,
+               construct="alias forwards in_deg", line=fa.node.lineno)
+    fr = prog.func(DCM + "::rotation")
+    t = P.sym("tdeg")
+    chk.ob("OPTION.degrees", fr.ref, "rotation(ax, t, degrees=True) == rotation(ax, t * pi/180)",
+           lambda: all_of(*[eq(it.run(fr, [ax, t], {"degrees": True}), it.run(fr, [ax, t * D]), "rotation(%s, degrees)" % ax) for ax in "xyz"]), module=DCM, function="rotation",
+           construct="degrees option", line=fr.node.lineno)
+
+
 def angles_law(out, r, p, y):
     a0, a1, a2 = args_of(out[0], "arctan2"), args_of(out[1], "arcsin"), args_of(out[2], "arctan2")
     if not (a0 and a1 and a2) or a0[0] != 1 or a1[0] != 1 or a2[0] != 1:
@@ -173,6 +200,17 @@ def axang(chk, prog):
     chk.touch(f)
     chk.ob("AXANG.build", f.ref, "axang2quat(u, t) == (cos t/2, u sin t/2)", lambda: eq(Interp(prog).run(f, [u.copy(), t]), q, "axang2quat"), module=ORI, function="axang2quat",
            construct="axang2quat", line=f.node.lineno)
+
+    def degrees():
+        from sa.lib import DEG2RAD_of
+        it_ = Interp(prog)
+        D = DEG2RAD_of(it_, prog.module(ORI))
+        td = P.sym("theta_deg")
+        half = td * D / 2
+        want = np.concatenate([[P.cos(half)], u * P.sin(half)])
+        return eq(it_.run(f, [u.copy(), td], {"rad": False}), want, "axang2quat(rad=False)")
+    chk.ob("AXANG.build", f.ref + "::degrees", "axang2quat(u, t_deg, rad=False) == (cos(t_deg pi/360), u sin(t_deg pi/360))", degrees, module=ORI, function="axang2quat",
+           construct="axang2quat in degrees", line=f.node.lineno)
 
 
 def explog(chk, prog):
@@ -368,6 +406,7 @@ def run(chk, prog, tier):
     explog(chk, prog)
     power(chk, prog)
     euler(chk, prog)
+    unit_options(chk, prog)
     dcm_log(chk, prog)
     chk.require_count("RPY", 3)
     chk.require_count("EULER.sequence", 8)
